@@ -29,6 +29,7 @@ func (w *World) Summarise(fn *ssa.Function) *Summary {
 	}
 	e := NewEngine(w)
 	e.Effects = w.EffectsOracle()
+	e.ErrClasses = w.errClassOracle()
 	paths := e.Run(fn, nil, nil)
 	s := &Summary{Fn: fn, Paths: paths, Err: e.Err, Steps: e.steps}
 	summaryCache[fn] = s
@@ -39,6 +40,7 @@ func (w *World) Summarise(fn *ssa.Function) *Summary {
 func (w *World) SummariseWith(fn *ssa.Function, prep func(e *Engine)) *Summary {
 	e := NewEngine(w)
 	e.Effects = w.EffectsOracle()
+	e.ErrClasses = w.errClassOracle()
 	if prep != nil {
 		prep(e)
 	}
@@ -198,4 +200,21 @@ func joinLimited(items []string, n int) string {
 		return strings.Join(items[:n], "; ") + fmt.Sprintf("; … (%d more)", len(items)-n)
 	}
 	return strings.Join(items, "; ")
+}
+
+// errClassOracle flattens the E4 alternatives of an un-inlined in-repo call's
+// error result into one class list (union; markers kept).
+func (w *World) errClassOracle() func(site *ssa.Call, idx int) []string {
+	if w.errRes == nil {
+		w.errRes = w.ErrResolver()
+	}
+	return func(site *ssa.Call, idx int) []string {
+		set := map[string]bool{}
+		for _, a := range w.errRes.callAlts(site, idx, map[ssa.Value]bool{}) {
+			for _, c := range a.Cls {
+				set[c] = true
+			}
+		}
+		return sortedKeys(set)
+	}
 }
